@@ -211,6 +211,7 @@ theorem step_files (env : Env) (fs fs' : FS) (c : Call) (r : Ret) (h : Prog.Step
       split at hq <;> (try exact Or.inl hq)
       all_goals (split at hq <;> (try exact Or.inl hq))
       all_goals (split at hq <;> (try exact Or.inl hq))
+      all_goals (try (split at hq <;> (try exact Or.inl hq)))
       all_goals (
         rcases key _ _ _ hq with h | h
         · exact Or.inl h
@@ -452,6 +453,7 @@ theorem step_frame (env : Env) (fs fs' : FS) (c : Call) (r : Ret) (h : Step env 
       split <;> (try rfl)
       all_goals (split <;> (try rfl))
       all_goals (split <;> (try rfl))
+      all_goals (try (split <;> (try rfl)))
       all_goals exact FS.get_put_ne _ _ hq
     case symlink t p =>
       split <;> (try rfl)
